@@ -82,19 +82,20 @@ def sparseSelect (data : Bytes) (rank : Nat) : Nat := sparseValueAt data rank
 
 def popCount (n : Nat) : Nat := ((List.range 64).filter (fun i => n.testBit i)).length
 
-/-- mirrors: set_block/dense.rs::serialize_dense_codec: every mini block = bitvec (8 bytes LE) +
-number of set bits before it (u16 LE, wrapping) -/
+/-- the 64-bit bitvec of mini block `m`: `set_bit_at` for every member of the mini block
+(mirrors: dense.rs::set_bit_at, `*input |= 1 << n`) -/
+def miniBitvec (els : List Nat) (m : Nat) : Nat :=
+  (blockOf EPMB els m).foldl (fun acc x => acc ||| 2 ^ x) 0
+
+/-- one mini block: bitvec (8 bytes LE) + number of members in earlier mini blocks (u16 LE; the
+running counter `non_null_rows_before`, wrapping) -/
+def denseMiniBytes (els : List Nat) (m : Nat) : Bytes :=
+  leBytes Gen.MINI_BLOCK_BITVEC_NUM_BYTES (miniBitvec els m)
+    ++ leBytes Gen.MINI_BLOCK_OFFSET_NUM_BYTES (rowsBefore EPMB els m % 65536)
+
+/-- mirrors: set_block/dense.rs::serialize_dense_codec: all `ELEMENTS_PER_BLOCK / 64` mini blocks -/
 def denseEnc (els : List Nat) : Bytes :=
-  let nMini := EPB / EPMB
-  let minis : List (Nat × Nat) := els.foldr (fun e (acc : List (Nat × Nat)) =>
-    match acc with
-    | (m', bv) :: rest => if m' = e / EPMB then (m', bv + 2 ^ (e % EPMB)) :: rest else (e / EPMB, 2 ^ (e % EPMB)) :: acc
-    | [] => [(e / EPMB, 2 ^ (e % EPMB))]) []
-  let step := fun (acc : Bytes × Nat) (m : Nat) =>
-    let bitvec := ((minis.find? (fun p => p.1 = m)).map (·.2)).getD 0
-    (acc.1 ++ leBytes Gen.MINI_BLOCK_BITVEC_NUM_BYTES bitvec ++ leBytes Gen.MINI_BLOCK_OFFSET_NUM_BYTES (acc.2 % 65536),
-     acc.2 + popCount bitvec)
-  ((List.range nMini).foldl step ([], 0)).1
+  ((List.range (EPB / EPMB)).map (denseMiniBytes els)).flatten
 
 def denseMini (data : Bytes) (m : Nat) : Nat × Nat :=
   let d := data.drop (m * Gen.MINI_BLOCK_NUM_BYTES)
@@ -119,11 +120,15 @@ def denseRank (data : Bytes) (el : Nat) : Nat :=
 def denseRankIfExists (data : Bytes) (el : Nat) : Option Nat :=
   if denseContains data el then some (denseRank data el) else none
 
-/-- mirrors: DenseBlock::find_miniblock_containing_rank (take_while rank_offset ≤ rank, last) -/
+/-- mirrors: DenseBlock::find_miniblock_containing_rank — iterate the mini blocks from `m` while
+their rank offset is `≤ rank`, remember the last one (`take_while(..).last()`) -/
+def denseFindMiniAux (data : Bytes) (rank : Nat) : Nat → Nat → Option Nat → Option Nat
+  | 0, _, best => best
+  | fuel + 1, m, best =>
+    if (denseMini data m).2 ≤ rank then denseFindMiniAux data rank fuel (m + 1) (some m) else best
+
 def denseFindMini (data : Bytes) (rank : Nat) (from' : Nat) : Option Nat :=
-  let nMini := data.length / Gen.MINI_BLOCK_NUM_BYTES
-  let ids := ((List.range nMini).drop from').takeWhile (fun m => decide ((denseMini data m).2 ≤ rank))
-  ids.getLast?
+  denseFindMiniAux data rank (data.length / Gen.MINI_BLOCK_NUM_BYTES - from') from' none
 
 /-- mirrors: DenseBlock::select; `none` = the `unwrap()` panic -/
 def denseSelect (data : Bytes) (rank : Nat) : Option Nat := do
